@@ -1,3 +1,7 @@
 package main
 
-func registerMore() {}
+import "github.com/formancehq/numscript/verifharness/fw"
+
+func registerMore() {
+	fw.Register(propC06(), propC09(), propC10(), propC11(), propC12(), propC13())
+}
